@@ -7,7 +7,7 @@
    Values are compared with relative tolerance 1e-9 (absolute floor 1e-12). *)
 From Coq Require Import String.
 From Coq Require Import QArith ZArith List Bool.
-From OG Require Import C18.Model C18.Model2 C18.Model3.
+From OG Require Import C18.Model C18.Model2 C18.Model3 C18.Model4.
 Import ListNotations.
 Open Scope Q_scope.
 
@@ -205,3 +205,33 @@ Definition check_vvcase (c : vvcase) : N :=
   | None => 3%N     (* the model reports a many-to-many error although upstream answered *)
   end.
 Definition vvmismatches := mism_from check_vvcase 0.
+
+(* cases whose samples carry staleness markers (option-valued samples): the reference semantics drops the markers from
+   range windows and lets a newest marker hide the series for the instant selector.  Only bit 1 (model vs upstream) and
+   bit 2 (repaired protocol vs server) are produced; the record layout of the server is not known to the harness, so the
+   `current` protocol is not evaluated here (the staleness finding's signature classifies the server side). *)
+Definition scase := (fnid * Q * Z * Z * Z * list osample * list nat * option xval * option xval)%type.
+
+Fixpoint ocut_by (lens : list nat) (l : list osample) : list (list osample) :=
+  match lens with
+  | [] => match l with [] => [] | _ => [l] end
+  | n :: r => firstn n l :: ocut_by r (skipn n l)
+  end.
+
+Definition check_scase (c : scase) : N :=
+  let '(f, param, t, range, offset, osamples, lens, up, sv) := c in
+  let sq := is_sqrt_fn f in
+  match f with
+  | FSelect =>
+      let m := xfin (option_map snd (instant_select_stale t offset osamples)) in
+      ((if xapprox false m up then 0 else 1) + (if xapprox false m sv then 0 else 2))%N
+  | _ =>
+      (* the filtered series: windows commute with the filter (C18_stale_window_commutes) *)
+      let samples := drop_stale osamples in
+      let s := spec_fn f param t range offset samples in
+      let recs := filter_records (ocut_by lens (owindow t range offset osamples)) in
+      let ir := impl_fn false f param t range offset (concat recs) (map (@length sample) recs) in
+      ((if xapprox sq s up then 0 else 1) + (if xapprox sq ir sv then 0 else 2)
+       + (if fn_tie f t range offset samples then 8 else 0))%N
+  end.
+Definition smismatches := mism_from check_scase 0.
